@@ -1399,6 +1399,11 @@ pub fn c13(args: &Args) -> i32 {
 // C11 substitution
 // ---------------------------------------------------------------------------------------------
 
+thread_local! {
+    /// (value term, variable names, printed text) of the re-parsed substitution result
+    static REPARSE: std::cell::RefCell<Option<(u32, Vec<String>, String)>> = const { std::cell::RefCell::new(None) };
+}
+
 fn subst_tree(t: &Tree, sigma: &BTreeMap<String, Tree>) -> Tree {
     match t {
         Tree::Var(n) => sigma.get(n).cloned().unwrap_or_else(|| t.clone()),
@@ -1489,7 +1494,16 @@ pub fn c11(args: &Args) -> i32 {
                                             let s = d.subs(&mut sub)?;
                                             let names = s.var_names().to_vec();
                                             let vals: Vec<Sym> = names.iter().map(|n| Sym::var(n)).collect();
-                                            Ok((s.eval(&vals)?.0, names))
+                                            let v = s.eval(&vals)?.0;
+                                            // C12: the printed result parses back to the same expression
+                                            let printed = s.unparse().to_string();
+                                            let r = Deep::<Sym, SymOps>::parse(&printed).map_err(|e| exmex::ExError::new(&format!("REPARSE `{printed}`: {}", e.msg())))?;
+                                            let rn = r.var_names().to_vec();
+                                            let rv = r.eval(&rn.iter().map(|n| Sym::var(n)).collect::<Vec<_>>())?.0;
+                                            drop(r);
+                                            let printed2 = printed.clone();
+                                            REPARSE.with(|c| *c.borrow_mut() = Some((rv, rn, printed2)));
+                                            Ok((v, names))
                                         }
                                         _ => {
                                             let f = Flat::<Sym, SymOps>::parse(&text)?;
@@ -1497,7 +1511,15 @@ pub fn c11(args: &Args) -> i32 {
                                             let s = f.subs(&mut sub)?;
                                             let names = s.var_names().to_vec();
                                             let vals: Vec<Sym> = names.iter().map(|n| Sym::var(n)).collect();
-                                            Ok((s.eval(&vals)?.0, names))
+                                            let v = s.eval(&vals)?.0;
+                                            let printed = s.unparse().to_string();
+                                            let r = Flat::<Sym, SymOps>::parse(&printed).map_err(|e| exmex::ExError::new(&format!("REPARSE `{printed}`: {}", e.msg())))?;
+                                            let rn = r.var_names().to_vec();
+                                            let rv = r.eval(&rn.iter().map(|n| Sym::var(n)).collect::<Vec<_>>())?.0;
+                                            drop(r);
+                                            let printed2 = printed.clone();
+                                            REPARSE.with(|c| *c.borrow_mut() = Some((rv, rn, printed2)));
+                                            Ok((v, names))
                                         }
                                     }
                                 }));
@@ -1515,6 +1537,26 @@ pub fn c11(args: &Args) -> i32 {
                                         st.vcs += 1;
                                         if imp == rf {
                                             st.vcs_identical += 1;
+                                        }
+                                        if let Some((rv, rn, printed)) = REPARSE.with(|c| c.borrow_mut().take()) {
+                                            if rn.iter().any(|n| !names.contains(n)) {
+                                                st.violations += 1;
+                                                if fs.len() < 10 {
+                                                    fs.push(mk_finding("reparse", form, tab, &format!("{text} with {sig_text:?}"), Some(&reference_t), format!("{rn:?}"), format!("{names:?}"), format!("printed result `{printed}` has other variables")));
+                                                }
+                                            }
+                                            st.vcs += 1;
+                                            if rv != imp {
+                                                let (vd, _) = sweep::decide_single(rv, imp, Theory::Ufbv, &[]);
+                                                if vd == crate::smt::Verdict::Sat {
+                                                    st.violations += 1;
+                                                    if fs.len() < 10 {
+                                                        fs.push(mk_finding("reparse", form, tab, &format!("{text} with {sig_text:?}"), Some(&reference_t), sweep::show_term(rv), sweep::show_term(imp), format!("printed result `{printed}` parses back to a different expression")));
+                                                    }
+                                                } else if vd == crate::smt::Verdict::Inconclusive && fs.len() < 10 {
+                                                    fs.push(mk_finding("inconclusive", form, tab, &text, Some(&reference_t), String::new(), String::new(), "reparse".into()));
+                                                }
+                                            }
                                         }
                                         let (verdict, model) = sweep::decide_single(imp, rf, Theory::Ufbv, &[]);
                                         if samples.len() < 2 && idx % 97 == 0 {
@@ -1583,7 +1625,7 @@ pub fn c11(args: &Args) -> i32 {
         bounds: json!({"tables": ntab, "expressions": 11, "replacement_pool": "none, renaming (y), identity/swap (x), constant, self-referential (x&6), new variables (z-w), name sorting first (sin a), variable-free operator expression (7%8)",
             "maps": if quick { "every assignment of the pool to the variables of each expression, every 3rd (offset VERIF_SEED)" } else { "every assignment of the pool to the variables of each expression" },
             "forms": ["FlatEx::subs", "DeepEx::subs"],
-            "check": "value == simultaneous tree substitution (solver, all values); var_names == sorted union of untouched and replacement variables; empty map == original"}),
+            "check": "value == simultaneous tree substitution (solver, all values); var_names == sorted union of untouched and replacement variables; empty map == original; the printed result parses back to the same expression (C12)"}),
     };
     finish(args, "C11", vec![part], vec![], json!({
         "functions": ["DeepEx::subs", "Calculate::subs", "DeepEx::reset_vars", "DeepEx::compile", "FlatEx::to_deepex", "FlatEx::from_deepex"],
